@@ -146,9 +146,9 @@ PROPS = {
                            'the statement "float result >= exact need" is false at extreme magnitudes (C05_float_short_witness, finding T2). Proved instead: for every rounding function obeying the standard model with unit round-off u (relative error <= u per operation, integers up to 2^53 exact) the value that is ceiled differs from the exact one by at most (n/T)(8uP+4uT) = 8u*N + 4u*n (C05_float_error; from zero: 4u*N, C05_from_zero_float_error), so the requested count is within one node of the exact minimal count whenever that budget is below 1 (C05_float_within_one, C05_from_zero_within_one); rne64, the function the driver executes and Go is compared with bit for bit, obeys the standard model with u = 2^-53 (StdModel_rne64, C05_rne64_within_one). Sufficiency of the float result: the exact value exceeds every integer below it by at least 1/(s*T), so whenever the budget is below that granularity - with u = 2^-53: (8N+4n)*s*T < 2^53 - the float pipeline never asks for fewer than the exact minimal count (C05_float_sufficient), and n + delta lies in [N, N+1], N = ceil(100R/(sT)) (C05_float_full_in_region; C05_rne64_full_in_region for the executed model). Outside that region the property is false (T2) and the exact-rational monitor decides each observed delta. From zero: within one node (C05_from_zero_within_one); sufficiency from zero is monitored, not proved.',
                 level_note=LEVEL_NOTE + ' Go float64 arithmetic = IEEE-754 binary64 RNE (checked bit-for-bit against the model on every run, not proved).'),
     'C06': dict(level='proof', module='EscProofs.P.C06Float',
-                streams=dict(quick=[('scenario', ['-dir', '@ROOT/corpus/C06']), ('hist', ['-n', 400, '-scans', 10, '-focus', 'bands']), ('hist', ['-n', 150, '-scans', 8, '-focus', 'rotate'])],
-                             thorough=[('scenario', ['-dir', '@ROOT/corpus/C06']), ('hist', ['-n', 20000, '-scans', 12, '-focus', 'bands']), ('hist', ['-n', 5000, '-scans', 10, '-focus', 'rotate'])],
-                             search=[('hist', ['-n', 1500, '-scans', 12, '-focus', 'bands']), ('hist', ['-n', 800, '-scans', 10, '-focus', 'rotate'])]),
+                streams=dict(quick=[('scenario', ['-dir', '@ROOT/corpus/C06']), ('hist', ['-n', 400, '-scans', 10, '-focus', 'bands']), ('hist', ['-n', 150, '-scans', 8, '-focus', 'rotate']), ('arith', ['-n', 20000])],
+                             thorough=[('scenario', ['-dir', '@ROOT/corpus/C06']), ('hist', ['-n', 20000, '-scans', 12, '-focus', 'bands']), ('hist', ['-n', 5000, '-scans', 10, '-focus', 'rotate']), ('arith', ['-n', 1000000])],
+                             search=[('hist', ['-n', 1500, '-scans', 12, '-focus', 'bands']), ('hist', ['-n', 800, '-scans', 10, '-focus', 'rotate']), ('arith', ['-n', 100000])]),
                 aspects=['hist:taintadds', 'hist:untaints', 'hist:resize', 'hist:delta'], monitors=['C06'],
                 theorems=['Esc.P.C06_bands', 'Esc.P.C06_triggers', 'Esc.P.C06_triggers_off', 'Esc.P.C06_taint_rate', 'Esc.P.C06_idle_band',
                           'Esc.P.C06_up_never_taints', 'Esc.P.C06_down_never_adds', 'Esc.P.taintLoop_count_all_ok',
@@ -159,9 +159,10 @@ PROPS = {
                            'Tie: hist (requests placed at threshold*capacity/100 +-2) on taint/untaint/resize calls and the decision delta; band oracle on exact rationals over observed journals.',
                 level_note=LEVEL_NOTE),
     'C07': dict(level='proof', module='EscProofs.P.C07',
-                streams=dict(quick=[('scenario', ['-dir', '@ROOT/corpus/C07']), ('awsops', ['-n', 3000]), ('hist', ['-n', 400, '-scans', 10, '-focus', 'up'])],
-                             thorough=[('scenario', ['-dir', '@ROOT/corpus/C07']), ('awsops', ['-n', 100000]), ('hist', ['-n', 20000, '-scans', 12, '-focus', 'up'])],
-                             search=[('awsops', ['-n', 20000]), ('hist', ['-n', 1500, '-scans', 12, '-focus', 'up'])]),
+                # the last stream lets the credentials refresh fail (provider rebuilt, 5 s of real sleep each) before a scale-up
+                streams=dict(quick=[('scenario', ['-dir', '@ROOT/corpus/C07']), ('awsops', ['-n', 3000]), ('hist', ['-n', 400, '-scans', 10, '-focus', 'up']), ('hist', ['-n', 4, '-scans', 5, '-focus', 'up', '-slow'])],
+                             thorough=[('scenario', ['-dir', '@ROOT/corpus/C07']), ('awsops', ['-n', 100000]), ('hist', ['-n', 20000, '-scans', 12, '-focus', 'up']), ('hist', ['-n', 60, '-scans', 6, '-focus', 'up', '-slow'])],
+                             search=[('awsops', ['-n', 20000]), ('hist', ['-n', 1500, '-scans', 12, '-focus', 'up']), ('hist', ['-n', 12, '-scans', 6, '-focus', 'up', '-slow'])]),
                 aspects=['hist:untaints', 'hist:resize', 'hist:gets', 'cached-desired'], monitors=['C07'],
                 theorems=['Esc.P.C07_order', 'Esc.P.C07_remainder', 'Esc.P.C07_on_top', 'Esc.untaintLoop_spec', 'Esc.P.tryDelete_desired', 'Esc.orderBy_pairwise'],
                 technique='Lean 4 theorem (untaint loop attempts a newest-first prefix; count/remainder accounting of ScaleUp; exact SetDesiredCapacity value on the cached desired size, which follows accepted terminations) + differential correspondence incl. the provider cache after multi-node deletions + monitors',
@@ -227,12 +228,14 @@ PROPS = {
                            'Tie: awsops/fleetops streams run the real provider over the simulated AWS; full call arguments compared; predicates monitored on observed journals.',
                 level_note=LEVEL_NOTE),
     'C18': dict(level='proof', module='EscProofs.P.C18',
-                streams=dict(quick=[('fleetops', ['-n', 160])], thorough=[('fleetops', ['-n', 3200])], search=[('fleetops', ['-n', 400])]),
+                streams=dict(quick=[('fleetops', ['-n', 160]), ('hist', ['-n', 8, '-scans', 6, '-focus', 'fleet'])],
+                             thorough=[('fleetops', ['-n', 3200]), ('hist', ['-n', 200, '-scans', 8, '-focus', 'fleet'])],
+                             search=[('fleetops', ['-n', 400]), ('hist', ['-n', 40, '-scans', 8, '-focus', 'fleet'])]),
                 aspects=['journal', 'outcome'], monitors=['C18'],
                 theorems=['Esc.P.C18_no_leak', 'Esc.P.C18_error_reported', 'Esc.P.C18_no_lock', 'Esc.P.attachChunks_flatten', 'Esc.P.termChunks_flatten'],
                 technique='Lean 4 theorem over the model of attachInstancesToASG/terminateOrphanedInstances (permutation argument over batches, all failure points) + differential correspondence with fault injection at every call + monitor',
                 level_text='C18_no_leak: for every fleet size, readiness outcome and failing call, attached ++ submitted-for-termination is a permutation of the acquired ids (never both, never neither), every TerminateInstances call carries '
-                           '<= terminateBatchSize ids, and success is reported only when nothing was terminated; C18_no_lock: a failed increase leaves the scale lock untouched. Tie: fleetops stream (real provider, 1 s ticker) + monitor.',
+                           '<= terminateBatchSize ids, and success is reported only when nothing was terminated; C18_no_lock: a failed increase leaves the scale lock untouched. Tie: fleetops stream (real provider, 1 s ticker, fleets up to 2500, failure sequences up to the third strike) + monitor; controller level: fleet-mode histories with the monitor "a cool-down starts only in a scan in which the cloud accepted an increase".',
                 level_note=LEVEL_NOTE),
     'C19': dict(level='proof', module='EscProofs.P.C19',
                 streams=dict(quick=[('scenario', ['-dir', '@ROOT/corpus/C19']), ('awsops', ['-n', 3000]), ('hist', ['-n', 300, '-scans', 10])],
@@ -272,15 +275,17 @@ PROPS = {
                 level_note=LEVEL_NOTE + ' Quantity parsing (resource.Quantity strings) is outside the model: the harness feeds integer milli-CPU / byte values.',
                 assumptions=['resource amounts are non-negative and sums stay within int64', 'quantities are whole millicores / whole bytes']),
     'C14': dict(level='proof', module='EscProofs.P.C14',
-                streams=dict(quick=[('filters', [])], thorough=[('filters', [])], search=[('filters', [])]),
-                aspects=['affinity', 'default', 'match', 'bad-case'], monitors=[],
+                streams=dict(quick=[('filters', []), ('hist', ['-n', 150, '-scans', 8, '-focus', 'multi'])],
+                             thorough=[('filters', []), ('hist', ['-n', 8000, '-scans', 12, '-focus', 'multi'])],
+                             search=[('filters', []), ('hist', ['-n', 1000, '-scans', 12, '-focus', 'multi'])]),
+                aspects=['affinity', 'default', 'match', 'bad-case'], monitors=['C14'],
                 decisive={'affinity': 'Esc.P.C14_pod: the model filter is equivalent to the documented pod attribution rule',
                           'default': 'Esc.P.C14_default: the model filter is equivalent to the documented default-group rule',
                           'match': 'Esc.P.C14_node: the model filter is equivalent to the documented node rule'},
                 theorems=['Esc.P.C14_pod', 'Esc.P.C14_default', 'Esc.P.C14_node', 'Esc.P.C14_static', 'Esc.P.C14_required_terms', 'Esc.P.C14_view'],
                 technique='Lean 4 theorem (filter <-> documented rule, for all pods/nodes) + exhaustive small-scope differential correspondence with the real filter functions',
                 level_text='C14_pod / C14_default / C14_node: the three filters are equivalent to the documented attribution rules for every pod and node; C14_view: a group\'s view is exactly the filtered lists. '
-                           'Tie: filters stream enumerates exhaustively the small-scope universe (7 selectors x ~190 affinity shapes x 5 owner sets x 4 annotation sets = 141,820 pods, 9 label maps) through the real filter functions.',
+                           'Tie: filters stream enumerates exhaustively the small-scope universe (7 selectors x ~190 affinity shapes x 5 owner sets x 4 annotation sets = 141,820 pods, 9 label maps) through the real filter functions; at controller level, after every scan of the multi-group histories the harness asks each group\'s own lister objects what they return and the driver compares that with viewOf (names of pods and nodes): a disagreement names the mis-attributed pod or node.',
                 level_note=LEVEL_NOTE, exhaustive=True),
     'C15': dict(level='proof', module='EscProofs.P.C15',
                 streams=dict(quick=[('taintops', ['-n', 4000]), ('hist', ['-n', 300, '-scans', 10])],
